@@ -32,6 +32,7 @@ type c03conf struct {
 	vpn      bool
 	files    map[string]string
 	thorough bool
+	plain    bool // plain text output (no --json): the record still carries that frame's fields
 }
 
 func c03ports(s string) []zzref.RefPortRange {
@@ -83,6 +84,13 @@ func c03confs() []c03conf {
 		{name: "icmp-addr-file", args: []string{"icmp", "-f", "{DIR}/t.jsonl"}, kind: "icmp", scan: "icmp", files: map[string]string{"t.jsonl": addrs}},
 		{name: "tcp-syn-201-ranges", args: []string{"tcp", "syn", "-p", p201, "10.0.1.0/30"}, kind: "tcp", scan: "tcpsyn", syn: true, subnet: "10.0.1.0/30", chunks: c201},
 		{name: "tcp-fin-200-ranges", args: []string{"tcp", "fin", "-p", p200, "10.0.1.0/30"}, kind: "tcp", scan: "tcpfin", subnet: "10.0.1.0/30", chunks: c200},
+		// a later range nested in, overlapping and touching the one before it: the filter is built from the list
+		{name: "tcp-fin-nested-ranges", args: []string{"tcp", "fin", "-p", "100-103,101,80-81,81-82,79", "10.0.1.0/28"}, kind: "tcp", scan: "tcpfin", subnet: "10.0.1.0/28", chunks: one("100-103,101,80-81,81-82,79")},
+		{name: "icmp-plain", args: []string{"icmp", "10.0.1.0/28"}, kind: "icmp", scan: "icmp", subnet: "10.0.1.0/28", plain: true},
+		{name: "udp-plain", args: []string{"udp", "-p", "53", "10.0.1.0/28"}, kind: "icmp", scan: "udp", subnet: "10.0.1.0/28", plain: true},
+		{name: "tcp-fin-plain", args: []string{"tcp", "fin", "-p", "80,100-102", "10.0.1.0/28"}, kind: "tcp", scan: "tcpfin", subnet: "10.0.1.0/28", chunks: one("80,100-102"), plain: true},
+		{name: "tcp-syn-plain", args: []string{"tcp", "syn", "-p", "80,100-102", "10.0.1.0/28"}, kind: "tcp", scan: "tcpsyn", syn: true, subnet: "10.0.1.0/28", chunks: one("80,100-102"), plain: true},
+		{name: "arp-plain", args: []string{"arp", "10.0.1.0/28"}, kind: "arp", subnet: "10.0.1.0/28", plain: true},
 		{name: "tcp-syn-vpn", args: []string{"tcp", "syn", "-p", "80,100-102", "10.0.1.0/28"}, kind: "tcp", scan: "tcpsyn", syn: true, subnet: "10.0.1.0/28", chunks: one("80,100-102"), vpn: true},
 		{name: "icmp-vpn", args: []string{"icmp", "10.0.1.0/28"}, kind: "icmp", scan: "icmp", subnet: "10.0.1.0/28", vpn: true},
 		{name: "udp-401-ranges", args: []string{"udp", "-p", p401, "10.0.1.0/30"}, kind: "icmp", scan: "udp", subnet: "10.0.1.0/30", thorough: true},
@@ -316,6 +324,55 @@ func c03shaped(cf c03conf, fr *c03frame, chunk int) (must, may bool, rec string)
 	return shaped, shaped, rec
 }
 
+// c03plainRecord reads a line of the plain text output: columns as the README shows them
+// (ip port flags | ip type code ttl | ip mac vendor).
+func c03plainRecord(cf c03conf, line string) (string, error) {
+	f := strings.Fields(line)
+	atoi := func(s string) (int, error) {
+		n := 0
+		if s == "" {
+			return 0, fmt.Errorf("empty number")
+		}
+		for _, ch := range s {
+			if ch < '0' || ch > '9' {
+				return 0, fmt.Errorf("not a number: %q", s)
+			}
+			n = n*10 + int(ch-'0')
+		}
+		return n, nil
+	}
+	switch cf.kind {
+	case "arp":
+		if len(f) < 2 {
+			return "", fmt.Errorf("want: ip mac [vendor]")
+		}
+		return fmt.Sprintf("arp|%s|%s", f[0], f[1]), nil
+	case "icmp":
+		if len(f) != 4 {
+			return "", fmt.Errorf("want: ip type code ttl")
+		}
+		t, e1 := atoi(f[1])
+		co, e2 := atoi(f[2])
+		ttl, e3 := atoi(f[3])
+		if e1 != nil || e2 != nil || e3 != nil {
+			return "", fmt.Errorf("want: ip type code ttl")
+		}
+		return fmt.Sprintf("%s|%s|ttl=%d|type=%d|code=%d", cf.scan, f[0], ttl, t, co), nil
+	}
+	if len(f) < 2 || len(f) > 3 {
+		return "", fmt.Errorf("want: ip port [flags]")
+	}
+	port, err := atoi(f[1])
+	if err != nil {
+		return "", err
+	}
+	fl := ""
+	if len(f) == 3 {
+		fl = f[2]
+	}
+	return fmt.Sprintf("%s|%s|port=%d|flags=%s", cf.scan, f[0], port, fl), nil
+}
+
 func c03record(line string) (string, error) {
 	var m map[string]any
 	if err := json.Unmarshal([]byte(line), &m); err != nil {
@@ -390,8 +447,10 @@ func verifC03(c *drv.Ctx) {
 			injectedInto := make([]int, nchunks)
 			accepted := make([][]bool, nchunks)
 			sc := &vE2ESpec{Args: append([]string{}, cf.args...), Files: cf.files, Horizon: 30000000}
-			sc.Args = append(sc.Args, "--json")
-			if cf.name != "arp" && !cf.vpn {
+			if !cf.plain {
+				sc.Args = append(sc.Args, "--json")
+			}
+			if cf.kind != "arp" && !cf.vpn {
 				sc.Stdin = vGatewayCache + `{"ip":"10.0.1.3","mac":"02:00:00:00:00:33","vendor":""}` + "\n" + `{"ip":"192.168.9.9","mac":"02:00:00:00:00:99","vendor":""}` + "\n"
 			}
 			world := vDefaultWorld
@@ -483,7 +542,13 @@ func verifC03(c *drv.Ctx) {
 			got := map[string]int{}
 			badLine := ""
 			for _, l := range lines {
-				r, err := c03record(l)
+				var r string
+				var err error
+				if cf.plain {
+					r, err = c03plainRecord(cf, l)
+				} else {
+					r, err = c03record(l)
+				}
 				if err != nil {
 					badLine = l
 					break
